@@ -19,11 +19,12 @@ func registerC11() {
 			"files, and chains of 2-3 of them; for every stream EVERY byte offset c in [0, len] x {clean cut, injected non-EOF read error from c on: a private sentinel, io.ErrUnexpectedEOF, io.ErrClosedPipe, os.ErrClosed} x six entry points x " +
 			"{1-byte reads, greedy reads} is executed: c before the entry point's needed prefix => a non-nil error and (Decode, DecodeChained) a partial File holding exactly " +
 			"the messages of the records complete before c; c at or after it => the intact result; clean EOF exactly on a file boundary of a chain => the files before it and " +
-			"nil; a fault on a boundary => error. A case is one (stream, offset, kind, entry point, chunker) execution; non-trivial: c lies strictly inside the stream; distinct by construction",
+			"nil; a fault on a boundary => error. Family large-streams: model streams of 9-40 KB (several refills of the decoder's 4096-byte buffer) cut/faulted at every offset within 40 bytes of a multiple of 4096, within 64 bytes of either end, and at every 211th offset in between, under 1000-byte and greedy chunkers, same oracle. A case is one (stream, offset, kind, entry point, chunker) execution; non-trivial: c lies strictly inside the stream; distinct by construction",
 		Assume:        []string{"partial content is compared on message slots (the file_id of a file whose file_id record is incomplete is not defined)"},
 		MinNontrivial: 5000,
 		Families: []lib.Family{
 			{Name: "streams", N: func(t string) uint64 { return tierN(t, 64, 4000) }, Run: c11Stream},
+			{Name: "large-streams", N: func(t string) uint64 { return tierN(t, 6, 300) }, Run: c11Large},
 		},
 		Exhaustive: func(string) bool { return false },
 	})
@@ -62,6 +63,20 @@ func c11Stream(c *lib.Ctx, idx uint64) {
 	if idx%4 == 3 {
 		nfiles = 2 + rng.Intn(2)
 	}
+	c11Run(c, rng, idx, nfiles, false)
+}
+
+// c11Large: long streams, strided offsets.
+func c11Large(c *lib.Ctx, idx uint64) {
+	rng := lib.NewRand("C11.large-streams", idx)
+	nfiles := 1
+	if idx%3 == 2 {
+		nfiles = 2
+	}
+	c11Run(c, rng, idx, nfiles, true)
+}
+
+func c11Run(c *lib.Ctx, rng *lib.Rand, idx uint64, nfiles int, large bool) {
 	var files []c11File
 	var stream []byte
 	var bounds []int // end offset of each file within stream
@@ -77,6 +92,12 @@ func c11Stream(c *lib.Ctx, idx uint64) {
 					}
 				}
 			}
+		}
+		if large {
+			ft := lib.FileTypes[(idx+uint64(i))%uint64(len(lib.FileTypes))].Type
+			o := lib.GenOpts{FileType: ft, Mesgs: lib.HostedMesgs(ft), Records: 250 + rng.Intn(900), Locals: 1 + rng.Intn(4), Redefine: 6, BigEndian: 50,
+				Unknown: 25, Compressed: 15, NoTimeZero: true, MaxFields: 6, Serial: true}
+			p = lib.NewPlanGen(rng, o).Fill()
 		}
 		if p == nil {
 			p = c11Plan(rng, idx+uint64(i))
@@ -119,7 +140,25 @@ func c11Stream(c *lib.Ctx, idx uint64) {
 		"DecodeChained":         len(stream),
 	}
 	chunkers := []lib.Chunker{{Kind: "one"}, {Kind: "greedy"}}
+	if large {
+		chunkers = []lib.Chunker{{Kind: "fixed", Size: 1000}, {Kind: "greedy"}}
+	}
+	noffsets := 0
 	for cut := 0; cut <= len(stream); cut++ {
+		if large {
+			m := cut % 4096
+			hs0 := int(stream[0])
+			near := m <= 40 || m >= 4096-40 || (cut-hs0)%4096 <= 40 && cut >= hs0 || cut < 64 || cut > len(stream)-64 || cut%211 == 0
+			for _, bd := range bounds {
+				if cut >= bd-40 && cut <= bd+40 {
+					near = true
+				}
+			}
+			if !near {
+				continue
+			}
+		}
+		noffsets++
 		for fault := 0; fault < len(faultKinds); fault++ {
 			if cut == len(stream) && fault == 0 {
 				continue // the intact stream
@@ -142,13 +181,25 @@ func c11Stream(c *lib.Ctx, idx uint64) {
 			}
 		}
 	}
-	n := int64(len(stream)-1) * int64(len(faultKinds)) * int64(len(lib.EntryPoints)) * int64(len(chunkers))
+	n := int64(noffsets-1) * int64(len(faultKinds)) * int64(len(lib.EntryPoints)) * int64(len(chunkers))
 	c.NontrivialN(n)
 	c.Count("streams", 1)
-	c.Count("offsets", int64(len(stream)+1))
+	c.Count("offsets", int64(noffsets))
+	if large {
+		c.Count("large_streams", 1)
+		c.Count("large_stream_bytes", int64(len(stream)))
+	}
 	c.Count(fmt.Sprintf("files_per_stream_%d", nfiles), 1)
 	c.Sample("stream", 2, map[string]interface{}{"files": nfiles, "bytes": len(stream), "executions": n})
 }
+
+type partialKey struct {
+	plan *ref.Plan
+	k    int
+}
+
+// partialCache: many cut offsets share the same number of complete records.
+var partialCache = map[partialKey]*lib.Expectation{}
 
 func slotsEmpty(ct *lib.Content) bool {
 	if ct == nil {
@@ -178,10 +229,19 @@ func partialOK(c *lib.Ctx, stream []byte, where string, f c11File, cut int, got 
 		}
 		return true
 	}
-	ex, err := lib.Expect(f.plan, lib.ExpectOpts{UpTo: k})
-	if err != nil {
-		c.Violation(stream, "harness: model failed: %v", err)
-		return false
+	ck := partialKey{f.plan, k}
+	ex, cached := partialCache[ck]
+	if !cached {
+		var err error
+		ex, err = lib.Expect(f.plan, lib.ExpectOpts{UpTo: k})
+		if err != nil {
+			c.Violation(stream, "harness: model failed: %v", err)
+			return false
+		}
+		if len(partialCache) > 4000 {
+			partialCache = map[partialKey]*lib.Expectation{}
+		}
+		partialCache[ck] = ex
 	}
 	if got == nil {
 		c.Violation(stream, "%s: no File returned although %d records were complete before the cut", where, k)
